@@ -216,3 +216,18 @@ Definition int_table (nvals : nat) : list (list (Z * Z)) :=
 Definition seq_table (nvals : nat) (len : nat) : list (list (Z * Z)) :=
   map (fun s => map (fun ms => (resb (and_check s (SSeq ms)), resb (or_check s (SSeq ms))))
                     (seqs_upto (zrange0 nvals) len)) (zrange0 nvals).
+
+(* DatasetCollection histories (model in M_Coll.v): result codes, then the
+   keys in insertion order, then the ids of the stored datasets *)
+Inductive dsop := DsAdd (ds : list obj) | DsRemove (n : Z) | DsGet (n : Z).
+
+Definition ds_trace (ops : list dsop) : list Z :=
+  let '(c, out) :=
+    fold_left (fun st o =>
+      let '(c, out) := st in
+      match o with
+      | DsAdd ds => let (c', r) := dsc_add c ds in (c', out ++ [res_code (fun _ => 0) r])
+      | DsRemove n => let (c', r) := dsc_remove c n in (c', out ++ [res_code (fun _ => 0) r])
+      | DsGet n => (c, out ++ [res_code oid (dsc_get c n)])
+      end) ops ([], []) in
+  out ++ [-7] ++ od_keys c ++ [-7] ++ map (fun kv => oid (snd kv)) c.
